@@ -133,6 +133,7 @@ func (r *Run) AddPart(p *Part) *Part {
 
 // Violate records a violation (deduplicated by signature).
 func (r *Run) Violate(part, sig, msg string, replay any) {
+	sig = strings.ReplaceAll(sig, " ", "-") // signatures are single tokens in the known-findings file
 	r.mu.Lock()
 	defer r.mu.Unlock()
 	if r.seenSig[sig] {
